@@ -460,22 +460,82 @@ func rulesAtSearch(c *Ctx, r *Report, at *ssa.Function) {
 		})
 	}
 	r.check(okN && okPred, "SEARCH", fname(at), "search predicate", c.pos(search.Pos()), "At searches all breakpoints for the first whose start is > i", "("+predSeen+") the search is not `first j in [0, len(idx)) with idx[j].start > i`: positions on a breakpoint, or the last segment, are answered wrongly")
-	// result: at == 0 => nil ; else cp(idx.idx[at-1].idxs)
-	okZero, okPrev := false, false
+	// result: at == 0 => nil ; else a copy of idx.idx[at-1].idxs (through a helper, or made and copied in place)
+	okZero, okPrev := false, true
+	sv := s.expr(search).String()
+	// every read of a stored set uses the breakpoint just before the search result
+	var sets []ssa.Value
+	instrs(at, func(in ssa.Instruction) {
+		ld, ok := in.(*ssa.UnOp)
+		if !ok || ld.Op != token.MUL {
+			return
+		}
+		fa, ok := ld.X.(*ssa.FieldAddr)
+		if !ok {
+			return
+		}
+		if _, isSlice := ld.Type().Underlying().(*types.Slice); !isSlice {
+			return
+		}
+		e := s.expr(ld).String()
+		if !strings.Contains(e, "P0.f0") {
+			return
+		}
+		_ = fa
+		if strings.Contains(e, "[("+sv+" - 1)].f") {
+			sets = append(sets, ld)
+		} else if strings.Contains(e, "].f") {
+			okPrev = false // a stored set read at another index
+		}
+	})
+	isSet := func(v ssa.Value) bool {
+		for _, x := range sets {
+			if x == v {
+				return true
+			}
+		}
+		return false
+	}
+	nNonNil := 0
 	instrs(at, func(in ssa.Instruction) {
 		rt, ok := in.(*ssa.Return)
 		if !ok {
 			return
 		}
 		g := guardOf(s, rt.Block(), nil)
-		v := s.expr(rt.Results[0])
-		sv := s.expr(search).String()
-		if isNilConst(rt.Results[0]) && g == "(0 == "+sv+")" {
-			okZero = true
+		if isNilConst(rt.Results[0]) {
+			if g == "(0 == "+sv+")" {
+				okZero = true
+			}
+			return
 		}
-		if strings.Contains(v.String(), "["+"("+sv+" - 1)"+"].f1") && strings.HasPrefix(v.String(), "call:regions.cp(") {
-			okPrev = true
+		nNonNil++
+		switch v := rt.Results[0].(type) {
+		case *ssa.Call:
+			// a module helper applied to the stored set
+			if gfn := v.Call.StaticCallee(); gfn == nil || !c.inModule(gfn) || len(v.Call.Args) != 1 || !isSet(v.Call.Args[0]) {
+				okPrev = false
+			}
+		case *ssa.MakeSlice, *ssa.Slice:
+			// made here and filled by copy(result, set)
+			filled := false
+			instrs(at, func(in2 ssa.Instruction) {
+				if cl, ok := in2.(*ssa.Call); ok {
+					if bi, ok := cl.Call.Value.(*ssa.Builtin); ok && bi.Name() == "copy" && cl.Call.Args[0] == ssa.Value(v) && isSet(cl.Call.Args[1]) && instrDominates(cl, rt) {
+						filled = true
+					}
+					if bi, ok := cl.Call.Value.(*ssa.Builtin); ok && bi.Name() == "append" {
+						_ = bi
+					}
+				}
+			})
+			if !filled {
+				okPrev = false
+			}
+		default:
+			okPrev = false
 		}
 	})
-	r.check(okZero && okPrev, "SEARCH", fname(at), "answer from the preceding breakpoint", c.pos(at.Pos()), "positions before the first breakpoint get nil; otherwise the answer is a copy of the set stored at the breakpoint just before the search result", "At does not answer nil for search result 0 and cp(idx[at-1].idxs) otherwise")
+	okPrev = okPrev && len(sets) > 0 && nNonNil > 0
+	r.check(okZero && okPrev, "SEARCH", fname(at), "answer from the preceding breakpoint", c.pos(at.Pos()), "positions before the first breakpoint get nil; otherwise the answer is a copy of the set stored at the breakpoint just before the search result", "At does not answer nil for search result 0 and a copy of idx[at-1].idxs otherwise (a stored set is read at another index, or what is returned is not a copy of that set)")
 }
